@@ -65,6 +65,7 @@ STEPS = [
     ("ord_x", ".order_rows(['x'])", "order_rows"),
     ("ord_lim", ".order_rows(['g', 'x'], reverse=['x'], limit=2)", "order_rows"),
     ("ord_biglim", ".order_rows(['x'], limit=7)", "order_rows"),
+    ("ord_lim1", ".order_rows(['y'], reverse=['y'], limit=1)", "order_rows"),  # a limit that binds on two-row tables
     ("join_inner", f".natural_join(b={E}, on=['g'], jointype='inner')", "natural_join"),
     ("join_left", f".natural_join(b={E}, on=['g'], jointype='left')", "natural_join"),
     ("join_right", f".natural_join(b={E}, on=['g'], jointype='right')", "natural_join"),
